@@ -8,11 +8,11 @@ forecast, `distribute_balanced_vehicles`, `distribute_surplus_to_vehicles` / `di
 class asserts that), any vehicles, stations, batteries, future events, and any battery obeying the
 law `FwLaw` (0 ≤ average power ≤ offered power — C01/C02).
 
-The unchanged code does break the limit in three situations (known findings, exhibited below as
-witnesses): LOAD_STRAT greedy/needy (`distribute_power` offers every vehicle the whole budget; the
-peak-shaving battery/V2G passes work against the *forecast* load), and LOAD_STRAT balanced outside a
-window when a stationary battery discharges after V2G discharge made the connector load negative
-(exactly the case excluded in `C04_flex_window_balanced_lower_partial`).
+The model is the code WITH the repairs fixes/FW1 … FW5 (see notes/S_FLEX_WINDOW.md, "Repairs"). Before them the
+code broke the limit in three situations: LOAD_STRAT greedy (`distribute_power` offered every vehicle the whole
+budget — FW4), greedy/needy battery/V2G passes budgeting against the *forecast* load (FW5), and LOAD_STRAT
+balanced outside a window when a stationary battery discharged after V2G discharge had made the connector load
+negative (FW3 — the case formerly excluded in `C04_flex_window_balanced_lower_partial`).
 -/
 import SpiceEv.Proofs.StratFlexWindow
 set_option linter.unusedSectionVars false
@@ -33,7 +33,7 @@ theorem C04_flex_window_balanced_upper (ops : BatOps α B) (law : FwLaw ops) (en
     (h : FlexWindow.step ops env w window events = .ok (w', win', cmds)) :
     ∃ g', w'.gcs = [g'] ∧ g'.id = g.id ∧ g'.curMax = g.curMax ∧ g'.currentLoad ≤ g'.curMax := by
   obtain ⟨g', hg', h1, h2, h3, _, _⟩ :=
-    step_balanced_rel ops law env hstrat heps false w w' window win' events cmds g hg hM (by simp) h
+    step_balanced_rel ops law env hstrat heps false w w' window win' events cmds g hg hM h
   exact ⟨g', hg', h2, h1, by rw [h1]; exact le_trans h3 (max_le h0 (le_refl _))⟩
 
 /-- **In a window step nothing is discharged** (balanced): when the window in force for the step
@@ -47,31 +47,77 @@ theorem C04_flex_window_balanced_window_monotone (ops : BatOps α B) (law : FwLa
     (h : FlexWindow.step ops env w window events = .ok (w', win', cmds)) :
     ∃ g', w'.gcs = [g'] ∧ g.currentLoad ≤ g'.currentLoad := by
   obtain ⟨g', hg', _, _, _, h4, _⟩ :=
-    step_balanced_rel ops law env hstrat heps false w w' window win' events cmds g hg hM (by simp) h
+    step_balanced_rel ops law env hstrat heps false w w' window win' events cmds g hg hM h
   exact ⟨g', hg', h4 (by rw [hwin]; rfl)⟩
 
-/-- **Feed-in limit, partial.** If the world has no stationary battery **or** no V2G-capable vehicle,
-flex_window (balanced) never pushes the connector below `−cur_max`: V2G discharge outside a window is
-bounded by `cur_max + load`, and a stationary battery that discharges while the load is non-negative
-takes at most `cur_max − load` in total.
-*Excluded* (and false in the code, see the witness below): a V2G-capable vehicle together with a
-stationary battery, outside a window — `distribute_balanced_batteries` runs after
-`distribute_balanced_v2g` has discharged (`loaded_v2g`) although the load is already negative, and
-lets every battery discharge up to `(cur_max − load)/n` (finding
-`C04:strategy_breaks_limit:flex_window:feedin:batteries`). In every window step the bound holds
-without any side condition (`C04_flex_window_balanced_window_monotone`). -/
-theorem C04_flex_window_balanced_lower_partial (ops : BatOps α B) (law : FwLaw ops) (env : FEnv α)
+/-- **flex_window (balanced) never feeds in more than the limit** (code with repair FW3): if before the step
+`−cur_max ≤ load`, it still is after the whole step — no side condition. V2G discharge outside a window is
+bounded by `cur_max + load`; since FW3 `distribute_balanced_batteries` bounds its discharge bracket by the
+same feed-in headroom (`max_power = min(cur_max − load, cur_max + load)` when discharging), so the batteries
+together take at most `max (cur_max + load) 0`. (Before FW3 this needed "no stationary battery or no V2G
+vehicle": finding `C04:strategy_breaks_limit:flex_window:feedin:batteries`, mechanism 3a.) -/
+theorem C04_flex_window_balanced_lower (ops : BatOps α B) (law : FwLaw ops) (env : FEnv α)
     (hstrat : env.strat = .balanced) (heps : 0 ≤ env.base.eps)
     (w w' : SWorld α B) (window win' : Option Bool) (events : List (FEvent α))
     (cmds : List (String × α)) (g : GcS α) (hg : w.gcs = [g]) (hM : 0 ≤ g.curMax)
-    (hside : w.batteries = [] ∨ ∀ v ∈ w.vehicles, v.v2g = false) (h0 : -g.curMax ≤ g.currentLoad)
+    (h0 : -g.curMax ≤ g.currentLoad)
     (h : FlexWindow.step ops env w window events = .ok (w', win', cmds)) :
     ∃ g', w'.gcs = [g'] ∧ g'.curMax = g.curMax ∧ -g'.curMax ≤ g'.currentLoad := by
   obtain ⟨g', hg', h1, _, _, _, h5⟩ :=
-    step_balanced_rel ops law env hstrat heps true w w' window win' events cmds g hg hM (fun _ => hside) h
+    step_balanced_rel ops law env hstrat heps true w w' window win' events cmds g hg hM h
   refine ⟨g', hg', h1, ?_⟩
   rw [h1]
   exact le_trans (le_min h0 (le_refl _)) (h5 rfl)
+
+/-- **flex_window (greedy) keeps the connector within ± the limit** — whole `step` with LOAD_STRAT greedy, code with
+the repairs FW1 … FW5: if before the step `−cur_max ≤ load ≤ cur_max` (`0 ≤ cur_max`), it still is afterwards, for
+every world with one connector. FW4: `distribute_power` hands out at most the budget `total_power − load ≤
+cur_max − load` in total (`distributePower_greedy_sum`); FW5: the V2G pass and the battery pass bound the current
+step by the actual headroom `cur_max ∓ load`; the surplus pass (`Strategy.distribute_surplus_power`) charges at most
+the surplus and discharges at most the load. (Before the repairs false: findings `draw:vehicles`, `draw:batteries`,
+`feedin:*`.) -/
+theorem C04_flex_window_greedy_limit (ops : BatOps α B) (law : FwLaw ops) (env : FEnv α)
+    (hstrat : env.strat = .greedy) (heps : 0 ≤ env.base.eps)
+    (w w' : SWorld α B) (window win' : Option Bool) (events : List (FEvent α))
+    (cmds : List (String × α)) (g : GcS α) (hg : w.gcs = [g]) (hM : 0 ≤ g.curMax)
+    (hlo : -g.curMax ≤ g.currentLoad) (hhi : g.currentLoad ≤ g.curMax)
+    (h : FlexWindow.step ops env w window events = .ok (w', win', cmds)) :
+    ∃ g', w'.gcs = [g'] ∧ g'.curMax = g.curMax ∧ -g'.curMax ≤ g'.currentLoad ∧ g'.currentLoad ≤ g'.curMax := by
+  obtain ⟨g', hg', h1, _, h3, _, h5⟩ :=
+    step_ps_rel ops law env (by rw [hstrat]; decide) (DPBound.greedy ops law.toBatLaw env hstrat) heps
+      w w' window win' events cmds g hg hM h
+  refine ⟨g', hg', h1, ?_, ?_⟩
+  · rw [h1]; exact le_trans (le_min hlo (le_refl _)) (h5 rfl)
+  · rw [h1]; exact le_trans h3 (max_le hhi (le_refl _))
+
+/-- **flex_window (needy) keeps the connector within ± the limit** — same statement for LOAD_STRAT needy (code with
+FW1 … FW5), in exact arithmetic: the builtin `sum` is the plain sum and battery capacities are ≥ 0, so that the shares
+`energy_i / Σ energy` of `distribute_power` add up to 1 (`distributePower_needy_sum`). In floating point the shares can
+add up to 1 + a few ulp; that slack is below the monitor's EPS and outside this theorem. -/
+theorem C04_flex_window_needy_limit (ops : BatOps α B) (law : FwLaw ops) (env : FEnv α)
+    (hstrat : env.strat = .needy) (hsum : env.sum = List.sum) (hcap : ∀ b, 0 ≤ ops.capacity b)
+    (heps : 0 ≤ env.base.eps)
+    (w w' : SWorld α B) (window win' : Option Bool) (events : List (FEvent α))
+    (cmds : List (String × α)) (g : GcS α) (hg : w.gcs = [g]) (hM : 0 ≤ g.curMax)
+    (hlo : -g.curMax ≤ g.currentLoad) (hhi : g.currentLoad ≤ g.curMax)
+    (h : FlexWindow.step ops env w window events = .ok (w', win', cmds)) :
+    ∃ g', w'.gcs = [g'] ∧ g'.curMax = g.curMax ∧ -g'.curMax ≤ g'.currentLoad ∧ g'.currentLoad ≤ g'.curMax := by
+  obtain ⟨g', hg', h1, _, h3, _, h5⟩ :=
+    step_ps_rel ops law env (by rw [hstrat]; decide) (DPBound.needy ops law.toBatLaw env hstrat hsum hcap) heps
+      w w' window win' events cmds g hg hM h
+  refine ⟨g', hg', h1, ?_, ?_⟩
+  · rw [h1]; exact le_trans (le_min hlo (le_refl _)) (h5 rfl)
+  · rw [h1]; exact le_trans h3 (max_le hhi (le_refl _))
+
+/-- Non-vacuity (greedy and needy, one vehicle, kernel-checked; the example environment uses `List.sum` and the ideal
+battery has capacity 10): a V2G-capable vehicle at a 2 kW station on a 10 kW connector gets 2 kW. -/
+example : resLoads (FlexWindow.step idealOps (exEnv .greedy) exWorld5 (some true) []) = some ([2], [2]) := by
+  decide +kernel
+example : resLoads (FlexWindow.step idealOps (exEnv .needy) exWorld5 (some true) []) = some ([2], [2]) := by
+  decide +kernel
+example : (exEnv .needy).sum = List.sum ∧ ∀ b, 0 ≤ idealOps.capacity b := ⟨rfl, fun _ => by simp [idealOps]⟩
+/- needy, two vehicles on the 3 kW connector: 1.5 kW each (evaluated) -/
+#guard resLoads (FlexWindow.step idealOps (exEnv .needy) exWorld2 (some true) []) == some ([3], [3 / 2, 3 / 2])
 
 /-- **The fuel of every bisection suffices.** A bisection of the model (`while hi − lo > EPS`) started
 with `hi − lo ≤ EPS · 2^fuel` never reports FUEL by itself (the driver runs with fuel 200, the
@@ -93,17 +139,16 @@ example : resLoads (FlexWindow.step idealOps (exEnv .balanced) exWorld (some tru
 #guard resLoads (FlexWindow.step idealOps (exEnv .balanced) exWorld2 (some true) []) ==
     some ([3], [4194245 / 2097152, 2097211 / 2097152])
 
-/- **Witness (greedy):** the same two vehicles under LOAD_STRAT greedy: `distribute_power` offers each
-vehicle the whole budget; the 3 kW connector ends at ≈ 4 kW. The model reproduces the code's
-behaviour (finding `C04:strategy_breaks_limit:flex_window:draw:vehicles`). -/
-#guard resLoads (FlexWindow.step idealOps (exEnv .greedy) exWorld2 (some true) []) ==
-    some ([1048557 / 262144], [1048557 / 524288, 1048557 / 524288])
+/- greedy after repair FW4 (`distribute_power` subtracts what a vehicle took): the first vehicle takes the whole
+3 kW, the second gets nothing, the connector ends at exactly 3 kW (before FW4: ≈ 2 kW each = 4 kW on the 3 kW
+connector, finding `C04:strategy_breaks_limit:flex_window:draw:vehicles`). -/
+#guard resLoads (FlexWindow.step idealOps (exEnv .greedy) exWorld2 (some true) []) == some ([3], [3, 0])
 
-/-- **Witness (balanced, feed-in with a battery):** outside a window a full V2G vehicle discharges
-≈ 5 kW (allowed: 4 + 1), then the stationary battery discharges another ≈ 3.3 kW: the 4 kW connector
-ends at ≈ −7.3 kW (finding `C04:strategy_breaks_limit:flex_window:feedin:batteries`). -/
+/-- **The former witness (balanced, V2G vehicle + battery outside a window) after repair FW3:** the full V2G vehicle
+discharges ≈ 5 kW (allowed: 4 + 1), the connector is at ≈ −4 kW, the battery's bracket `min(4 − load, 4 + load)`
+is ≈ 0 and it adds nothing more: the 4 kW connector ends at ≈ −3.99999 kW (before FW3: −7.3 kW). -/
 example : resLoads (FlexWindow.step idealOps (exEnv .balanced) exWorld3 (some false) []) =
-    some ([-8063043909879 / 1099511627776], [-2621435 / 524288]) := by decide +kernel
+    some ([-1099509530619 / 274877906944], [-2621435 / 524288]) := by decide +kernel
 
 /-- Non-vacuity of the side condition "battery but no V2G vehicle": outside a window the vehicle of
 `exWorldBat` takes ≈ 2 kW, the battery discharges ≈ 3.3 kW, the connector ends at ≈ 1.7 kW (within ±10 kW). -/
